@@ -93,6 +93,11 @@ theorem toCheckTokenPass_inv {s s' : Station} {att : Attempt} (h : toCheckTokenP
 theorem toAwaitStatus_inv {s s' : Station} {a : Nat} (h : toAwaitStatus s a = some s') : s' = { s with st := .awaitStatus a } := by
   unfold toAwaitStatus at h; split at h <;> cases h <;> rfl
 
+theorem bind_ok_inv' {r : Res} {f : Ctx → Res} {c' : Ctx} (h : r.bind f = .ok c') : ∃ c1, r = .ok c1 ∧ f c1 = .ok c' := by
+  cases r with
+  | ok c1 => exact ⟨c1, rfl, h⟩
+  | panic site => cases h
+
 /-- Frame: no application was called, scripts and parameters are untouched. -/
 structure Quiet (c c' : Ctx) : Prop where
   calls : c'.calls = c.calls
@@ -263,6 +268,31 @@ theorem foldIdle_eff (now : Int) (np : Option Nat) : ∀ (calls : List (Telegram
         · exact .inr (.inl h')
         · exact .inr (.inr ⟨(t, l) :: pre, da, sa, by rw [hc]; rfl, by simpa [upd] using hda, by simpa [upd] using hsa, hsrc, hu⟩)
 
+
+theorem handleTelegram_tx (c c' : Ctx) (now : Int) (t : Telegram) (l : Bool) (h : handleTelegram c now t l = .ok c') :
+    c'.tx = c.tx := by
+  unfold handleTelegram at h
+  split at h
+  · cases h; rfl
+  · simp only at h
+    repeat' split at h
+    all_goals first
+      | (cases h; rfl)
+      | (obtain ⟨s', hs', hc'⟩ := tr_inv h; subst hc'; rfl)
+  · cases h
+
+theorem foldIdle_tx (now : Int) : ∀ (calls : List (Telegram × Bool)) (c c' : Ctx),
+    foldTelegrams (fun c t isLast => handleTelegram (upd c fun s => markRx s now) now t isLast) c calls = .ok c' →
+    c'.tx = c.tx := by
+  intro calls
+  induction calls with
+  | nil => intro c c' h; cases h; rfl
+  | cons x rest ih =>
+    intro c c' h
+    obtain ⟨t, l⟩ := x
+    simp only [foldTelegrams] at h
+    obtain ⟨c1, h1, h2⟩ := bind_ok_inv' h
+    rw [ih c1 c' h2, handleTelegram_tx _ _ _ _ _ h1]; rfl
 
 /-! ## Ring-view evolution without supervision removal -/
 
@@ -783,7 +813,7 @@ def CheckPost (c c' : Ctx) (now : Int) (att : Attempt) : Prop :=
           c'.tx = some (sendToken (UInt8.ofNat r0.ns) (UInt8.ofNat c.s.p.address))))) ∨
    ((checkSlotExpired c.s now).2 = false ∧ ∃ rx' calls ret, receiveAll c.rx = .done rx' calls ret ∧
       ((calls = [] ∧ c'.s.st = .checkTokenPass att ∧ c'.s.ring = c.s.ring ∧ c'.tx = c.tx) ∨
-       (calls ≠ [] ∧ HeardEvo calls c.s.ring c'.s.ring ∧
+       (calls ≠ [] ∧ HeardEvo calls c.s.ring c'.s.ring ∧ c'.tx = c.tx ∧
          ((∃ sr' np' coll', c'.s.st = .activeIdle sr' np' coll') ∨ (∃ a b, c'.s.st = .listenToken a b) ∨
           (∃ pre da sa, calls = pre ++ [(.token da sa, true)] ∧ da.toNat = c.s.p.address ∧ sa.toNat ≠ c.s.p.address ∧
              sa.toNat = c'.s.ring.ps ∧ c'.s.st = .useToken ⟨now, none⟩ false))))))
@@ -835,7 +865,7 @@ theorem doCheckTokenPass_eff (c c' : Ctx) (now : Int) (att : Attempt)
           exact h
         obtain ⟨hq, ho, hev, hpost⟩ := foldIdle_eff now none _ _ c' (.inl ⟨none, 0, rfl⟩) (receiveAll_flags _ _ _ _ hrx) h2
         refine ⟨⟨hq.calls, hq.apps, by simpa using hq.p⟩, by simpa using ho,
-          .inr ⟨hex', rx', _, ret, hrx, .inr ⟨by simp, by simpa using hev, ?_⟩⟩⟩
+          .inr ⟨hex', rx', _, ret, hrx, .inr ⟨by simp, by simpa using hev, by simpa using foldIdle_tx now _ _ c' h2, ?_⟩⟩⟩
         rcases hpost with h' | h' | ⟨pre, da, sa, hc, hda, hsa, hsrc, hu⟩
         · exact .inl h'
         · exact .inr (.inl h')
@@ -1335,7 +1365,7 @@ theorem poll_calls (s : Station) (apps : Apps) (now : Int) (phy : Bool) (rx : By
         refine .inl (quiet rfl hq ?_)
         intro a d h
         rcases hs with ⟨-, _, _, -, ⟨h', -⟩ | ⟨-, h' | h', -⟩⟩ |
-          ⟨-, _, _, _, -, ⟨-, h', -⟩ | ⟨-, -, ⟨_, _, _, h'⟩ | ⟨_, _, h'⟩ | ⟨_, _, _, -, -, -, -, h'⟩⟩⟩ <;> rw [h'] at h <;> cases h
+          ⟨-, _, _, _, -, ⟨-, h', -⟩ | ⟨-, -, -, ⟨_, _, _, h'⟩ | ⟨_, _, h'⟩ | ⟨_, _, _, -, -, -, -, h'⟩⟩⟩ <;> rw [h'] at h <;> cases h
       | awaitStatus a0 =>
         obtain ⟨hq, -, -, hs⟩ := hd.status a0 (by simpa using hst)
         refine .inl (quiet rfl hq ?_)
